@@ -140,12 +140,16 @@ Definition emon_step (cfg : e2e_cfg) (y y' : sys) (ev : sys_event) (os : list sy
   (* ---- C16 liveness: within the retry budget a QoS 1/2 broker message for an active client is
           delivered (QoS 2: exactly once) and acknowledged to the broker *)
   let track := negb ll && (nfaults cfg <=? R) in
+  let ncb_of (mid : N) (topic payload : bytes) :=
+    len (List.filter (fun c => (snd c =? mid) && beq (fst (fst c)) topic && beq (snd (fst c)) payload) cbs) in
+  let ack_of (q mid : N) :=
+    existsb (fun b => match b with
+                      | MqPuback i => (q =? 1) && (i =? mid)
+                      | MqPubcomp i => (q =? 2) && (i =? mid)
+                      | _ => false end) brs in
   let bp1 := map (fun p =>
-               let ncb := len (List.filter (fun c => beq (fst (fst c)) (pb_topic p) && beq (snd (fst c)) (pb_payload p)) cbs) in
-               let ack := existsb (fun b => match b with
-                                            | MqPuback i => (pb_qos p =? 1) && (i =? pb_mid p)
-                                            | MqPubcomp i => (pb_qos p =? 2) && (i =? pb_mid p)
-                                            | _ => false end) brs in
+               let ncb := ncb_of (pb_mid p) (pb_topic p) (pb_payload p) in
+               let ack := ack_of (pb_qos p) (pb_mid p) in
                {| pb_mid := pb_mid p; pb_qos := pb_qos p; pb_topic := pb_topic p; pb_payload := pb_payload p;
                   pb_deadline := pb_deadline p; pb_cb := pb_cb p + ncb; pb_acked := pb_acked p || ack |}) (em_bpubs m) in
   let f16l := bp1 ≫= (fun p =>
@@ -159,8 +163,7 @@ Definition emon_step (cfg : e2e_cfg) (y y' : sys) (ev : sys_event) (os : list sy
                if track && cstate_eqb (cl_st (y_cl y)) Active && handler_matches (y_cl y) topic && ((q =? 1) || (q =? 2)) && running_sys y
                then bp2 ++ [{| pb_mid := mid; pb_qos := q; pb_topic := topic; pb_payload := payload;
                               pb_deadline := t0 + 4 * (R + 1) * (N.max (retry_delay (e_gw cfg)) (k_rdelay (e_cl cfg))) + 1000;
-                              pb_cb := len (List.filter (fun c => beq (fst (fst c)) topic && beq (snd (fst c)) payload) cbs);
-                              pb_acked := false |}]
+                              pb_cb := ncb_of mid topic payload; pb_acked := ack_of q mid |}]
                else bp2
              | _ => bp2 end in
   let sleeps1 := List.filter (fun s => negb (existsb (fun ir => fst ir =? fst (fst s)) rets)) (em_sleeps m) in
